@@ -144,13 +144,27 @@ class Session:
             res = ('hang', res)
         return res
 
-    def request(self, script=(), conn=(), kind='read', settle=True):
+    def request(self, script=(), conn=(), kind='read', settle=True, in_cancelled_task=False):
         self.peer.forced = list(script)
         self.peer.forced_conn = list(conn)
         l0, s0, c0 = len(self.kern.log), len(self.peer.sent), len(self.peer.connects)
         u0 = len(self.loop.unhandled)
         t0 = self.loop.time()
-        res = self._run(_exec(make_command(self.p, kind), self.p))
+        if in_cancelled_task:
+            # the request is issued from a task that swallowed a cancellation earlier (a clean-up handler, a poll loop that
+            # caught CancelledError): Task.cancelling() is still > 0 there
+            import asyncio
+
+            async def w():
+                asyncio.current_task().cancel()
+                try:
+                    await asyncio.sleep(0)
+                except asyncio.CancelledError:
+                    pass
+                return await _exec(make_command(self.p, kind), self.p)
+            res = self._run(w())
+        else:
+            res = self._run(_exec(make_command(self.p, kind), self.p))
         t1 = self.loop.time()
         if settle:
             self.loop.settle(0)
